@@ -3,7 +3,7 @@
    and cursor.go (escape sequences, taken from Gen/GenTerm.v), and a VT100-subset emulator
    that interprets the emitted rune stream (CSI parser; LF, CR, CUU, EL, DECTCEM, SGR). *)
 From Coq Require Import List NArith ZArith Bool Arith.
-From RareV Require Import Base.Hex Base.Num Gen.GenTerm Model.Trim.
+From RareV Require Import Base.Hex Base.Num Base.Res Gen.GenTerm Model.Trim.
 Import ListNotations.
 
 (* ---------------------------------------------------------------- commands and their bytes *)
@@ -180,6 +180,38 @@ Definition interp (tc : tcfg) (s : scr) (c : cmd) : scr :=
   | EraseEOL => erase_line tc 0 s
   | HideCur => set_vis false s
   | ShowCur => set_vis true s
+  end.
+
+(* ---------------------------------------------------------------- which writer a command gets *)
+(* cmd/helpers/output.go BuildVTerm / BuildVTermFromArguments with
+   pkg/multiterm/termstate/term.go IsPipedOutput (os.Stdout.Stat().Mode() & os.ModeCharDevice == 0;
+   a failing Stat counts as "not piped" and is not modelled) and pkg/color's init. *)
+Inductive outkind :=
+| OTerminal      (* a tty *)
+| OCharDev       (* a character device that is not a terminal, e.g. /dev/null *)
+| OPipe | OSocket | ORegular | OOther.   (* pipe, socket, regular file, anything else *)
+Inductive writer := WLive | WBuffered | WNull.
+
+Definition is_terminal (k : outkind) : bool := match k with OTerminal => true | _ => false end.
+Definition is_char_device (k : outkind) : bool :=
+  match k with OTerminal | OCharDev => true | _ => false end.
+Definition is_piped_output (k : outkind) : bool := negb (is_char_device k).      (* IsPipedOutput *)
+Definition select_writer (k : outkind) (snapshot : bool) : writer :=              (* BuildVTerm *)
+  if (snapshot || is_piped_output k)%bool then WBuffered else WLive.
+Definition select_from_args (noout csv_stdout snapshot : bool) (k : outkind) : writer :=
+  if (noout || csv_stdout)%bool then WNull else select_writer k snapshot.        (* BuildVTermFromArguments *)
+Definition color_default (k : outkind) : bool := negb (is_piped_output k).       (* color.Enabled after init *)
+
+(* what reaches standard output when a command obtains its writer this way, writes the history
+   and closes (NullTerm prints nothing) *)
+Definition session_output (c : cfg) (w : writer) (ups : list (nat * text)) : Res.result text :=
+  match w with
+  | WLive => Res.Ok (tw_output c ups)
+  | WBuffered => match bt_session (autotrim c) (cols c) ups with
+                 | Res.Ok (out, _) => Res.Ok out
+                 | Res.Panic => Res.Panic
+                 end
+  | WNull => Res.Ok []
   end.
 
 (* ---------------------------------------------------------------- boolean forms for the correspondence *)
